@@ -66,6 +66,9 @@ def gen_line(rnd, kind, ops=True, full=False):
                     break
                 total += l
                 o.append("d:" + (bytes(rnd.getrandbits(8) for _ in range(l)).hex() or "-"))
+                if full and rnd.random() < 0.25:
+                    o.append("f")          # clear the details; later details start from an empty list again
+                    total = 0
         if o:
             kv.append("ops=" + ",".join(o))
     return "gen %s %s" % (kind, " ".join(kv))
